@@ -46,6 +46,12 @@ func execRel(r *RNG, c *Case) {
 	case "stdin":
 		a = runVariants(c, seqs, names, c.Get("anntext"), c.Get("annfmt"), agg, false)
 		b = runVariants(c, seqs, names, c.Get("anntext"), c.Get("annfmt"), agg, true)
+	case "layout": // the same alignment, one line per sequence with LF against wrapped with CRLF
+		ca, cb := cloneCase(c), cloneCase(c)
+		ca.Set("lay", "plain")
+		cb.Set("lay", "crlfwrap")
+		a = runVariants(ca, seqs, names, c.Get("anntext"), c.Get("annfmt"), agg, false)
+		b = runVariants(cb, seqs, names, c.Get("anntext"), c.Get("annfmt"), agg, false)
 	case "gbgff":
 		a = runVariants(c, seqs, names, c.Get("anntext"), "gb", agg, false)
 		b = runVariants(c, seqs, names, c.Get("anntext2"), "gff", agg, false)
@@ -105,6 +111,16 @@ func init() {
 		return c
 	}
 	execs["C05"] = func(r *RNG, c *Case) { execs[c.Prop](r, c) }
+	// C17 (as used): the translation of every kind of IUPAC codon inside `variants`, forward and reverse features
+	gens["C17var"] = func(r *RNG, id string) *Case {
+		denseIUPAC = true
+		c := genVarCase(r, id, varOpts{fmtWeights: [2]int{1, 1}, withIns: false, maxGenes: 3})
+		denseIUPAC = false
+		c.Set("focus", "nucaa")
+		c.Tag("dense-iupac")
+		return c
+	}
+	execs["C17var"] = func(r *RNG, c *Case) { execs[c.Prop](r, c) }
 	// C13: aggregate = counted per-sequence output
 	gens["C13"] = func(r *RNG, id string) *Case {
 		if r.Chance(1, 3) {
@@ -113,6 +129,16 @@ func init() {
 				n := relOf(c, "snpsagg", "aggregate")
 				return n
 			}
+			return c
+		}
+		if r.Chance(1, 4) { // sam variants --aggregate, now and then with a read named like the reference
+			genSamRefNamedQuery = r.Chance(1, 3)
+			c := samVarGen(r, id, r.PickInt([]int{0, 2}), r.Chance(1, 3))
+			genSamRefNamedQuery = false
+			c.SetBool("agg", true)
+			n, d := genThreshold(r, 4)
+			c.SetInt("thrn", n).SetInt("thrd", d)
+			c.Tag("sam-aggregate")
 			return c
 		}
 		c := genVarCase(r, id, varOpts{fmtWeights: [2]int{1, 1}, withIns: r.Bool(), agg: true, window: r.Chance(1, 3), maxGenes: 4})
